@@ -54,7 +54,8 @@ func mapFindKey(m map[value]value, key value) (value, bool) {
 		}
 		return &symKey{s: k, seq: atomic.AddInt64(&symKeySeq, 1)}, false
 	}
-	return key, false
+	_, ok := m[key]
+	return key, ok
 }
 
 func symKeysOf(m map[value]value) []*symKey {
